@@ -88,6 +88,21 @@ fn problem(rep: &mut Report, key: &str, detail: String) {
 
 /// Call every accessor of `t` (recursively) and re-validate the values.
 pub fn check_term<T: Term>(t: T, strict: bool, c: Catcher, rep: &mut Report, depth: usize) {
+    let before = rep.problems.len();
+    check_term_accessors(t.borrow_term(), strict, c, rep, depth);
+    if depth == 0 && rep.problems.len() == before {
+        // what every collector does with a yielded term (collect_triples, insert into a store):
+        // copy it into an owned term; a term whose accessors are all fine can be copied without a panic
+        if let Err(p) = guarded(c, || {
+            let owned: sophia_api::term::SimpleTerm<'static> = t.borrow_term().into_term();
+            owned.kind()
+        }) {
+            problem(rep, "invalid-term/cannot-be-copied", format!("copying the yielded term into a SimpleTerm panicked: {p}"));
+        }
+    }
+}
+
+fn check_term_accessors<T: Term>(t: T, strict: bool, c: Catcher, rep: &mut Report, depth: usize) {
     rep.terms += 1;
     let kind = match guarded(c, || t.kind()) {
         Ok(k) => k,
